@@ -32,6 +32,8 @@ def param_sets(tier):
     for dg in range(7 if q else 11):
         for dom in ((1.0, 0.5, 3.0) if q else (1.0, 0.5, 3.0, 2.0)):
             out.append(('Legendre', {'degree': dg, 'domain': dom}))
+    for dg, dom in ((10, 100), (7, 1000), (12, 50)):
+        out.append(('Legendre', {'degree': dg, 'domain': dom}))            # integer domains whose powers exceed 2**63
     for dg in ((15, 20, 30) if q else (12, 15, 20, 25, 30, 40)):
         out.append(('Legendre', {'degree': dg, 'domain': 1.0, 'value_only': True}))     # high degrees: evaluation only (stable recurrence vs expanded monomials)
     for al in ((1, 0.5, -2, 3) if q else (1, 0.5, -2, 3, 0.1, -7.5)):
